@@ -377,9 +377,17 @@ pub fn case_strategy() -> impl Strategy<Value = Case> {
             Just(Receiver::EiPending),
         ],
         0x8000u16..0xBE00,
+        // SP around the 16 KiB page boundaries (the 48K format keeps PC in the two bytes below SP)
+        prop_oneof![
+            3 => Just(None),
+            1 => prop_oneof![Just(0x4002u16), Just(0x4003), Just(0x8000), Just(0x8001), Just(0x8002), Just(0xC000), Just(0xC001), Just(0xC002), Just(0x0000), Just(0xFFFF)].prop_map(Some),
+        ],
     )
-        .prop_map(|(machine, mut regs, border, latch, ram_seed, edits, receiver, pc)| {
+        .prop_map(|(machine, mut regs, border, latch, ram_seed, edits, receiver, pc, sp_edge)| {
             regs.pc = pc;
+            if let Some(sp) = sp_edge {
+                regs.sp = sp;
+            }
             // stack must not overlap the code at PC
             if regs.sp.wrapping_sub(pc) < 40 || pc.wrapping_sub(regs.sp) < 8 {
                 regs.sp = pc.wrapping_add(0x200);
@@ -401,7 +409,7 @@ pub fn replay(run: &mut Run, phase: &str, case: &serde_json::Value) -> Result<()
 }
 
 pub const LEVEL: &str = "exploration";
-pub const RULE: &str = "case = machine x arbitrary register file (alternates, I, R, IM, IFF1/IFF2) x border x 128K latch (all 256 values incl. lock, bank 5/2 paged at 0xC000) x RAM contents (seeded pattern + sparse edits in every bank) x SP anywhere x receiver in {same emulator after 1..4 frames of a scrambling program, fresh, halted, stopped mid DD-chain, paging locked + other border, EI pending}. Checked: (a) registers, every RAM bank, latch and border read through hooks are identical before and after save_snapshot, and the produced file parsed by the harness' own SNA parser describes that state; (b) after load_snapshot of the produced file every carried item, the latch with its lock, every RAM byte and all 65536 CPU-visible bytes equal the saved state; (c) the next 10 instructions, with the frame interrupt arriving on the way, match the reference machine continuing from the saved state. non-trivial = alternate set differs from main set, >= 2 RAM edits, receiver not fresh; distinct = hash of the case";
+pub const RULE: &str = "case = machine x arbitrary register file (alternates, I, R, IM, IFF1/IFF2) x border x 128K latch (all 256 values incl. lock, bank 5/2 paged at 0xC000) x RAM contents (seeded pattern + sparse edits in every bank) x SP anywhere (a quarter of the cases at a 16 KiB page boundary +-2, so that the two bytes below SP lie in different pages) x receiver in {same emulator after 1..4 frames of a scrambling program, fresh, halted, stopped mid DD-chain, paging locked + other border, EI pending}. Checked: (a) registers, every RAM bank, latch and border read through hooks are identical before and after save_snapshot, and the produced file parsed by the harness' own SNA parser describes that state; (b) after load_snapshot of the produced file every carried item, the latch with its lock, every RAM byte and all 65536 CPU-visible bytes equal the saved state; (c) the next 10 instructions, with the frame interrupt arriving on the way, match the reference machine continuing from the saved state. non-trivial = alternate set differs from main set, >= 2 RAM edits, receiver not fresh; distinct = hash of the case";
 pub const ASSUMPTIONS: &[&str] = &[
     "48K proviso of the property (two bytes below SP are RAM) is a generator-side skip, counted; on the 48K the two bytes below SP may hold PC after a load (format)",
     "IFF1 is not carried by the format: only IFF2 is compared",
